@@ -301,6 +301,23 @@ def dft_class_visibilities(mask, pixel_scales, origin, uv, image, matrix, vis):
         outs.append(got)
     if not np.allclose(outs[0], outs[1], rtol=1e-12, atol=1e-12 * (1.0 + scale)):
         return "preloaded and non-preloaded visibilities differ"
+    # the caller re-uses its baseline buffer after building the transformer (next channel: uv *= r).  Whatever baselines the transformer
+    # then stands for, it stands for ONE set: with and without preloaded tables the visibilities, and the adjoint image, agree
+    outs, adj = [], []
+    v = vis[:, 0] + 1j * vis[:, 1]
+    for preload in (True, False):
+        import autoarray as aa
+        mk = aa.Mask2D(mask=mask.copy(), pixel_scales=pixel_scales, origin=origin)
+        buf = uv.copy()
+        t = _transformer_module().TransformerDFT(uv_wavelengths=buf, real_space_mask=mk, preload_transform=preload)
+        buf *= 1.25
+        outs.append(np.asarray(t.visibilities_from(image=aa.Array2D(values=image.copy(), mask=mk))))
+        adj.append(np.asarray(t.image_from(visibilities=aa.Visibilities(visibilities=v.copy())).slim))
+    if not np.allclose(outs[0], outs[1], rtol=1e-9, atol=1e-9 * (1.0 + scale)):
+        return ("after the caller edited its baseline array in place (uv *= 1.25) the transformer answers differently with and without "
+                "preloaded tables: %r vs %r" % (outs[0], outs[1]))
+    if not np.allclose(adj[0], adj[1], rtol=1e-9, atol=1e-9 * (1.0 + float(np.abs(v).sum()))):
+        return "after the caller edited its baseline array in place image_from differs with and without preloaded tables"
     return None
 
 
